@@ -3,7 +3,10 @@
 mod sched;
 
 use fibre_cache::verif as hook;
-use fibre_cache::{Cache, CacheBuilder, EvictionListener, EvictionReason};
+use fibre_cache::{AsyncCache, Cache, CacheBuilder, EvictionListener, EvictionReason, TaskSpawner};
+use std::future::Future;
+use std::pin::Pin;
+use std::task::{Context, Poll, Wake, Waker};
 use serde::{Deserialize, Serialize};
 use std::collections::{BTreeMap, BTreeSet};
 use std::hash::{BuildHasher, Hasher};
@@ -38,13 +41,54 @@ impl BuildHasher for IdBuild {
 type K = u32;
 type V = u64;
 type C = Cache<K, V, IdBuild>;
+type AC = AsyncCache<K, V, IdBuild>;
+
+// ------------------------------------------------------------------ tasks under the scheduler
+/// One task per OS thread: a Pending poll parks the thread *in the scheduler* (a scheduling point
+/// at which the thread is not runnable), the waker makes it runnable again. The hybrid-lock futures
+/// never return Pending here (hook H3 holds the thread back until the lock is grantable), so the
+/// only genuine suspension is a task awaiting a load.
+struct SchedWaker(std::thread::ThreadId);
+impl Wake for SchedWaker {
+    fn wake(self: Arc<Self>) {
+        sched::unpark_hook(self.0);
+    }
+}
+fn sched_block_on<F: Future>(f: F) -> F::Output {
+    let mut f = std::pin::pin!(f);
+    let w = Waker::from(Arc::new(SchedWaker(std::thread::current().id())));
+    let mut cx = Context::from_waker(&w);
+    loop {
+        if let Poll::Ready(v) = f.as_mut().poll(&mut cx) {
+            return v;
+        }
+        sched::park_hook();
+    }
+}
+/// The executor handed to the cache for async loaders: every spawned task is a scheduled thread.
+struct SchedSpawner;
+impl TaskSpawner for SchedSpawner {
+    fn spawn(&self, future: Pin<Box<dyn Future<Output = ()> + Send>>) {
+        let token = sched::spawn_announce_hook();
+        std::thread::spawn(move || {
+            sched::child_enter_hook(token);
+            let r = catch_unwind(AssertUnwindSafe(|| sched_block_on(future)));
+            sched::child_exit_hook();
+            if let Err(p) = r {
+                std::panic::resume_unwind(p);
+            }
+        });
+    }
+}
 
 // ------------------------------------------------------------------ per-run context
 #[derive(Clone, Debug, PartialEq, Eq, Serialize)]
 pub enum Op {
     Insert(K, V, u64),
     Remove(K),
+    Invalidate(K),
     Fetch(K),
+    Peek(K),
     OrInsert(K, V),
     Compute(K, V),
     Clear,
@@ -68,6 +112,7 @@ impl EvictionListener<K, V> for Recorder {
 }
 pub struct Ctx {
     cache: C,
+    acache: AC,
     notes: Arc<Mutex<Vec<(K, V, EvictionReason)>>>,
     seq: AtomicU64,
     log: Mutex<Vec<Ev>>,
@@ -77,16 +122,73 @@ pub struct Ctx {
     costs: Mutex<BTreeMap<V, u64>>,
 }
 impl Ctx {
-    fn run_op(&self, thread: usize, op: Op) -> Option<V> {
+    fn run_op(&self, thread: usize, op: Op, asy: bool) -> Option<V> {
         let call = self.seq.fetch_add(1, Ordering::SeqCst);
-        let result = match &op {
+        let result = if asy { self.run_async(&op) } else { self.run_sync(&op) };
+        let ret = self.seq.fetch_add(1, Ordering::SeqCst);
+        self.log.lock().unwrap().push(Ev { thread, op, call, ret, result });
+        result
+    }
+    fn run_async(&self, op: &Op) -> Option<V> {
+        let c = &self.acache;
+        match op {
+            Op::Insert(k, v, cost) => {
+                self.costs.lock().unwrap().insert(*v, *cost);
+                sched_block_on(c.insert(*k, *v, *cost));
+                None
+            }
+            Op::Remove(k) => sched_block_on(c.remove(k)).map(|v| *v),
+            Op::Invalidate(k) => {
+                sched_block_on(c.invalidate(k));
+                None
+            }
+            Op::Fetch(k) => sched_block_on(c.fetch(k)).map(|v| *v),
+            Op::Peek(k) => sched_block_on(c.peek(k)).map(|v| *v),
+            Op::OrInsert(k, v) => {
+                self.costs.lock().unwrap().insert(*v, 1);
+                Some(*sched_block_on(c.entry(*k)).or_insert(*v, 1))
+            }
+            Op::Compute(k, nv) => {
+                let mut old = None;
+                let done = sched_block_on(c.compute(k, |v| {
+                    old = Some(*v);
+                    *v = *nv;
+                }));
+                if done {
+                    old
+                } else {
+                    None
+                }
+            }
+            Op::Clear => {
+                sched_block_on(c.clear());
+                None
+            }
+            Op::FetchWith(k) => Some(*sched_block_on(c.fetch_with(k))),
+            Op::Janitor(shard) => {
+                hook::janitor_pass(&self.cache, *shard, hook::JanitorWork::Periodic);
+                None
+            }
+            Op::Maint => {
+                sched_block_on(c.run_maintenance());
+                None
+            }
+        }
+    }
+    fn run_sync(&self, op: &Op) -> Option<V> {
+        let result = match op {
             Op::Insert(k, v, c) => {
                 self.costs.lock().unwrap().insert(*v, *c);
                 self.cache.insert(*k, *v, *c);
                 None
             }
             Op::Remove(k) => self.cache.remove(k).map(|v| *v),
+            Op::Invalidate(k) => {
+                self.cache.invalidate(k);
+                None
+            }
             Op::Fetch(k) => self.cache.fetch(k).map(|v| *v),
+            Op::Peek(k) => self.cache.peek(k).map(|v| *v),
             Op::OrInsert(k, v) => {
                 self.costs.lock().unwrap().insert(*v, 1);
                 Some(*self.cache.entry(*k).or_insert(*v, 1))
@@ -117,8 +219,6 @@ impl Ctx {
                 None
             }
         };
-        let ret = self.seq.fetch_add(1, Ordering::SeqCst);
-        self.log.lock().unwrap().push(Ev { thread, op, call, ret, result });
         result
     }
 }
@@ -139,13 +239,21 @@ pub struct Scen {
     /// advance the virtual clock by this many seconds after setup
     pub advance_after_setup_s: u64,
     pub oracle: String,
+    /// which threads go through the AsyncCache handle (missing = sync)
+    #[serde(default)]
+    pub async_threads: Vec<bool>,
+    /// configure an async loader (run by `SchedSpawner`) instead of the sync loader thread
+    #[serde(default)]
+    pub async_loader: bool,
 }
 /// serialisable operation (values are assigned by position)
 #[derive(Clone, Debug, Serialize, Deserialize, PartialEq, Eq)]
 pub enum SOp {
     Insert(K, u64),
     Remove(K),
+    Invalidate(K),
     Fetch(K),
+    Peek(K),
     OrInsert(K),
     Compute(K),
     Clear,
@@ -178,7 +286,21 @@ fn build_ctx(sc: &Scen) -> Arc<Ctx> {
         "fifo" => b = b.cache_policy_factory(|| Box::new(fibre_cache::policy::fifo::Fifo::new())),
         _ => {}
     }
-    if sc.loader {
+    if sc.loader && sc.async_loader {
+        let lc = loader_calls.clone();
+        let nl = next_loaded.clone();
+        b = b.spawner(Arc::new(SchedSpawner)).async_loader(move |k: K| {
+            let lc = lc.clone();
+            let nl = nl.clone();
+            async move {
+                sched::point();
+                lc.lock().unwrap().push(k);
+                let v = nl.fetch_add(1, Ordering::SeqCst);
+                sched::point();
+                (v, 1)
+            }
+        });
+    } else if sc.loader {
         let lc = loader_calls.clone();
         let nl = next_loaded.clone();
         b = b.loader(move |k: K| {
@@ -191,7 +313,8 @@ fn build_ctx(sc: &Scen) -> Arc<Ctx> {
         });
     }
     let cache = b.build().expect("build");
-    Arc::new(Ctx { cache, notes, seq: AtomicU64::new(0), log: Mutex::new(vec![]), loader_calls, next_loaded, capacity: sc.capacity, costs: Mutex::new(BTreeMap::new()) })
+    let acache = cache.to_async();
+    Arc::new(Ctx { cache, acache, notes, seq: AtomicU64::new(0), log: Mutex::new(vec![]), loader_calls, next_loaded, capacity: sc.capacity, costs: Mutex::new(BTreeMap::new()) })
 }
 
 fn concretise(ops: &[SOp], thread: usize, counter: &mut u64) -> Vec<Op> {
@@ -204,7 +327,9 @@ fn concretise(ops: &[SOp], thread: usize, counter: &mut u64) -> Vec<Op> {
             match o {
                 SOp::Insert(k, c) => Op::Insert(*k, id(), *c),
                 SOp::Remove(k) => Op::Remove(*k),
+                SOp::Invalidate(k) => Op::Invalidate(*k),
                 SOp::Fetch(k) => Op::Fetch(*k),
+                SOp::Peek(k) => Op::Peek(*k),
                 SOp::OrInsert(k) => Op::OrInsert(*k, id()),
                 SOp::Compute(k) => Op::Compute(*k, id()),
                 SOp::Clear => Op::Clear,
@@ -236,7 +361,7 @@ fn run_schedule(sc: &Scen, prefix: &[usize]) -> RunOut {
     // sequential setup (no scheduler installed: hooks are no-ops for unregistered threads)
     let mut counter = 0u64;
     for op in concretise(&sc.setup, 9, &mut counter) {
-        ctx.run_op(99, op);
+        ctx.run_op(99, op, false);
     }
     if sc.advance_after_setup_s > 0 {
         hook::advance_clock_nanos(sc.advance_after_setup_s * 1_000_000_000);
@@ -252,11 +377,12 @@ fn run_schedule(sc: &Scen, prefix: &[usize]) -> RunOut {
         let ops = concretise(ops, i, &mut c);
         let ctx = ctx.clone();
         let panics = panics.clone();
+        let asy = sc.async_threads.get(i).copied().unwrap_or(false);
         handles.push(std::thread::spawn(move || {
             sched::register(i);
             let r = catch_unwind(AssertUnwindSafe(|| {
                 for op in ops {
-                    ctx.run_op(i, op);
+                    ctx.run_op(i, op, asy);
                     sched::point();
                 }
             }));
@@ -350,7 +476,28 @@ fn check(sc: &Scen, ctx: &Ctx, log: &[Ev]) -> Vec<Fail> {
                 }
             }
         }
-        // a value written, no longer resident, never returned by a remove and not overwritten by a later write of the same key must have been notified
+        // programs without overwrites / clear: a value that was written and is no longer resident was removed by
+        // remove/invalidate, expiry or eviction, so it must have been notified (exactly once, checked above)
+        if sc.oracle.contains("complete") {
+            for (id, _) in costs.iter() {
+                if !resident.contains(id) && !notes.iter().any(|(_, nv, _)| nv == id) {
+                    // or_insert losers are never stored
+                    let stored = !log.iter().any(|e| matches!(&e.op, Op::OrInsert(_, v) if v == id) && e.result != Some(*id));
+                    if stored {
+                        out.push(Fail { prop: "C16", rule: "removal_not_notified", msg: format!("value #{} was written and is gone but the listener was never told; notifications {:?}", id, notes) });
+                        break;
+                    }
+                }
+            }
+        }
+        // reasons: a value a user remove() returned is Invalidated; in a program without user removals nothing is
+        for (k, id, reason) in &notes {
+            let user = log.iter().any(|e| matches!((&e.op, e.result), (Op::Remove(rk), Some(v)) if rk == k && v == *id)) || log.iter().any(|e| matches!(&e.op, Op::Invalidate(rk) if rk == k));
+            if *reason == EvictionReason::Invalidated && !user {
+                out.push(Fail { prop: "C16", rule: "wrong_reason", msg: format!("({}, #{}) notified as Invalidated but no remove/invalidate of that key took it; notifications {:?}", k, id, notes) });
+                break;
+            }
+        }
     }
     // C15: single flight
     if sc.oracle.contains("loader") {
@@ -423,7 +570,11 @@ fn linearizable(sc: &Scen, log: &[Ev]) -> Option<Fail> {
                 let cur = m.remove(k);
                 trust || cur == e.result
             }
-            Op::Fetch(k) => trust || m.get(k).copied() == e.result,
+            Op::Invalidate(k) => {
+                m.remove(k);
+                true
+            }
+            Op::Fetch(k) | Op::Peek(k) => trust || m.get(k).copied() == e.result,
             Op::OrInsert(k, v) => {
                 let cur = *m.entry(*k).or_insert(*v);
                 trust || Some(cur) == e.result
@@ -482,7 +633,7 @@ fn linearizable(sc: &Scen, log: &[Ev]) -> Option<Fail> {
 // ------------------------------------------------------------------ scenarios
 fn scenarios(tier: &str) -> Vec<Scen> {
     let quick = tier == "quick";
-    let base = Scen { name: String::new(), props: vec![], capacity: None, shards: 1, policy: "default".into(), ttl_s: None, grace_s: None, loader: false, setup: vec![], threads: vec![], advance_after_setup_s: 0, oracle: String::new() };
+    let base = Scen { name: String::new(), props: vec![], capacity: None, shards: 1, policy: "default".into(), ttl_s: None, grace_s: None, loader: false, setup: vec![], threads: vec![], advance_after_setup_s: 0, oracle: String::new(), async_threads: vec![], async_loader: false };
     let p = |v: &[&str]| v.iter().map(|s| s.to_string()).collect::<Vec<_>>();
     let mut v = vec![
         // ---- C11: linearizability of per-key operations
@@ -502,7 +653,27 @@ fn scenarios(tier: &str) -> Vec<Scen> {
         Scen { name: "c15/two-keys-one-stripe".into(), props: p(&["C15"]), loader: true, threads: vec![vec![SOp::FetchWith(0)], vec![SOp::FetchWith(1)]], oracle: "loader cost".into(), ..base.clone() },
         Scen { name: "c15/caller-after-invalidate".into(), props: p(&["C15"]), loader: true, setup: vec![SOp::FetchWith(0), SOp::Remove(0)], threads: vec![vec![SOp::FetchWith(0)], vec![SOp::FetchWith(0)]], oracle: "loader loader2 cost".into(), ..base.clone() },
     ];
+    let all = |n: usize| vec![true; n];
+    v.extend(vec![
+        // ---- the same races through the AsyncCache handle (handles/futures.rs), and mixed handles
+        Scen { name: "c11/async-insert-vs-remove-vs-fetch".into(), props: p(&["C11"]), threads: vec![vec![SOp::Insert(0, 1)], vec![SOp::Remove(0)], vec![SOp::Fetch(0), SOp::Fetch(0)]], setup: vec![SOp::Insert(0, 1)], oracle: "linear cost listener".into(), async_threads: all(3), ..base.clone() },
+        Scen { name: "c11/mixed-compute-vs-compute".into(), props: p(&["C11"]), setup: vec![SOp::Insert(0, 1)], threads: vec![vec![SOp::Compute(0)], vec![SOp::Compute(0)], vec![SOp::Fetch(0)]], oracle: "linear".into(), async_threads: vec![false, true, true], ..base.clone() },
+        Scen { name: "c11/async-or_insert-vs-or_insert".into(), props: p(&["C11"]), threads: vec![vec![SOp::OrInsert(0)], vec![SOp::OrInsert(0)], vec![SOp::Fetch(0)]], oracle: "linear cost".into(), async_threads: vec![true, true, false], ..base.clone() },
+        Scen { name: "c11/insert-vs-invalidate-vs-peek".into(), props: p(&["C11", "C16"]), setup: vec![SOp::Insert(0, 1)], threads: vec![vec![SOp::Insert(0, 1)], vec![SOp::Invalidate(0)], vec![SOp::Peek(0), SOp::Peek(0)]], oracle: "linear cost listener".into(), async_threads: vec![false, true, false], ..base.clone() },
+        Scen { name: "c11/or_insert-vs-remove-vs-fetch".into(), props: p(&["C11", "C13"]), setup: vec![SOp::Insert(0, 1)], threads: vec![vec![SOp::OrInsert(0)], vec![SOp::Remove(0)], vec![SOp::Fetch(0)]], oracle: "linear cost listener".into(), ..base.clone() },
+        Scen { name: "c13/async-remove-vs-janitor-eviction".into(), props: p(&["C13", "C16"]), capacity: Some(1), policy: "lru".into(), setup: vec![SOp::Insert(0, 1), SOp::Maint, SOp::Insert(1, 1)], threads: vec![vec![SOp::Remove(0)], vec![SOp::Janitor(0)]], oracle: "cost capacity listener".into(), async_threads: vec![true, false], ..base.clone() },
+        Scen { name: "c13/async-maint-vs-insert".into(), props: p(&["C13", "C16"]), capacity: Some(1), policy: "lru".into(), setup: vec![SOp::Insert(0, 1), SOp::Maint], threads: vec![vec![SOp::Insert(1, 1)], vec![SOp::Maint]], oracle: "cost capacity listener".into(), async_threads: vec![true, true], ..base.clone() },
+        // ---- expiry cleanup racing user removal (virtual clock advanced past the TTL after setup)
+        Scen { name: "c16/expiry-cleanup-vs-remove".into(), props: p(&["C16", "C13"]), ttl_s: Some(10), setup: vec![SOp::Insert(0, 1), SOp::Insert(1, 1)], advance_after_setup_s: 11, threads: vec![vec![SOp::Remove(0)], vec![SOp::Janitor(0)]], oracle: "cost listener complete".into(), ..base.clone() },
+        Scen { name: "c16/expiry-cleanup-vs-overwrite".into(), props: p(&["C16", "C13", "C11"]), ttl_s: Some(10), setup: vec![SOp::Insert(0, 1)], advance_after_setup_s: 11, threads: vec![vec![SOp::Insert(0, 1)], vec![SOp::Janitor(0)], vec![SOp::Fetch(0)]], oracle: "cost listener".into(), ..base.clone() },
+        // ---- single flight with async callers, mixed callers and an async loader
+        Scen { name: "c15/async-two-callers-one-key".into(), props: p(&["C15"]), loader: true, threads: vec![vec![SOp::FetchWith(0)], vec![SOp::FetchWith(0)]], oracle: "loader cost".into(), async_threads: all(2), ..base.clone() },
+        Scen { name: "c15/mixed-callers-one-key".into(), props: p(&["C15"]), loader: true, threads: vec![vec![SOp::FetchWith(0)], vec![SOp::FetchWith(0)]], oracle: "loader cost".into(), async_threads: vec![false, true], ..base.clone() },
+        Scen { name: "c15/async-loader-two-callers".into(), props: p(&["C15"]), loader: true, async_loader: true, threads: vec![vec![SOp::FetchWith(0)], vec![SOp::FetchWith(0)]], oracle: "loader cost".into(), async_threads: all(2), ..base.clone() },
+    ]);
     if !quick {
+        v.push(Scen { name: "c15/async-three-callers-one-key".into(), props: p(&["C15"]), loader: true, threads: vec![vec![SOp::FetchWith(0)], vec![SOp::FetchWith(0)], vec![SOp::FetchWith(0)]], oracle: "loader cost".into(), async_threads: vec![true, false, true], ..base.clone() });
+        v.push(Scen { name: "c15/async-loader-caller-after-invalidate".into(), props: p(&["C15"]), loader: true, async_loader: true, setup: vec![], threads: vec![vec![SOp::FetchWith(0), SOp::Remove(0), SOp::FetchWith(0)], vec![SOp::FetchWith(0)]], oracle: "loader loader2 cost noresident".into(), async_threads: all(2), ..base.clone() });
         v.push(Scen { name: "c15/three-callers-one-key".into(), props: p(&["C15"]), loader: true, threads: vec![vec![SOp::FetchWith(0)], vec![SOp::FetchWith(0)], vec![SOp::FetchWith(0)]], oracle: "loader cost".into(), ..base.clone() });
         v.push(Scen { name: "c15/stale-refresh-vs-miss".into(), props: p(&["C15"]), loader: true, ttl_s: Some(10), grace_s: Some(10), setup: vec![SOp::FetchWith(0)], advance_after_setup_s: 12, threads: vec![vec![SOp::FetchWith(0)], vec![SOp::FetchWith(0)]], oracle: "loader loader2 stale cost".into(), ..base.clone() });
         v.push(Scen { name: "c15/callers-two-shards".into(), props: p(&["C15"]), loader: true, shards: 2, threads: vec![vec![SOp::FetchWith(0), SOp::FetchWith(1)], vec![SOp::FetchWith(1), SOp::FetchWith(0)]], oracle: "loader cost".into(), ..base.clone() });
@@ -646,18 +817,20 @@ fn main() {
             let mut tier = "quick".to_string();
             let mut out = "report.json".to_string();
             let mut jobs = 16usize;
+            let mut props: Vec<String> = vec![];
             let mut i = 2;
             while i < args.len() {
                 match args[i].as_str() {
                     "--tier" => { tier = args[i + 1].clone(); i += 1; }
                     "--out" => { out = args[i + 1].clone(); i += 1; }
                     "--jobs" => { jobs = args[i + 1].parse().unwrap(); i += 1; }
-                    "--props" => { i += 1; }
+                    "--props" => { props = args[i + 1].split(',').map(|s| s.to_string()).collect(); i += 1; }
                     _ => {}
                 }
                 i += 1;
             }
-            let scs = scenarios(&tier);
+            // only the scenarios that serve the requested properties
+            let scs: Vec<Scen> = scenarios(&tier).into_iter().filter(|s| props.is_empty() || s.props.iter().any(|p| props.contains(p))).collect();
             let queue = Arc::new(Mutex::new(scs.into_iter().rev().collect::<Vec<_>>()));
             let results: Arc<Mutex<Vec<(Scenario, Vec<Violation>)>>> = Arc::new(Mutex::new(vec![]));
             let exe = std::env::current_exe().unwrap();
